@@ -145,6 +145,10 @@ package main
 //@   unknowncalls like dyncall
 //@   dyncall modifies allmaps(map[string]interface{})
 //@   callpre (*vm.VM).Execute arg0.maxSteps > 0 && fresh(arg0)
+// a failed execution is answered by writeInternalError only: the handler itself sets a status (other than 400 for a
+// rejected request) only after Execute succeeded, and hands writeInternalError the context of this request
+//@   callpreif (http.ResponseWriter).WriteHeader arg1 >= 200 && arg1 < 400 ==> local(err) == nil
+//@   callpre glyph.writeInternalError arg0 == ctx
 //@ func (*vm.VM).SetMaxSteps
 //@   trusted
 //@   modifies vm.maxSteps
@@ -153,3 +157,18 @@ package main
 //@   trusted
 //@   modifies nothing
 //@   ensures result != nil && fresh(result)
+
+// ---- generic 500 (C04): the failure handed to writeInternalError is logged, never sent: the response is status 500
+// ---- with a body built from literals only
+//@ func writeInternalError
+//@   ensures ctx.StatusCode == 500
+//@   callpre (http.ResponseWriter).WriteHeader arg1 == 500
+//@   callpre (*json.Encoder).Encode typeis(arg1, map[string]interface{}) && fresh(arg1.(map[string]interface{})) && len(arg1.(map[string]interface{})) == 1 && has(arg1.(map[string]interface{}), "error") && typeis(arg1.(map[string]interface{})["error"], string) && arg1.(map[string]interface{})["error"].(string) == "Internal server error"
+
+// ---- interpreted request handler (C04): when route execution fails, the handler answers with the interpreter's own 4xx
+// ---- response or through writeInternalError, never with a success status
+//@ func executeRoute
+//@   trusted
+//@ func createRouteHandler$1
+//@   callpre (http.ResponseWriter).WriteHeader local(err) != nil ==> arg1 >= 400 && arg1 < 500
+//@   callpre glyph.writeInternalError arg0 == ctx && local(err) != nil
